@@ -110,7 +110,9 @@ func (v VSpec) mk() (tengo.Object, bool) {
 	return s.mk(), true
 }
 
-func (v VSpec) isScalar() bool { return len(v.K) > 0 && v.K != "array" && v.K != "imarray" && v.K != "map" && v.K != "immap" }
+func (v VSpec) isScalar() bool {
+	return len(v.K) > 0 && v.K != "array" && v.K != "imarray" && v.K != "map" && v.K != "immap"
+}
 
 func (v VSpec) depth() int {
 	if v.isScalar() {
